@@ -120,7 +120,7 @@ def gen_hostile(rng):
         h["same_label"] = rng.random() < 0.5
     elif t == "literal_magnitude":
         # a short literal whose lexical form *declares* a size: a decimal / double / integer with a huge exponent
-        h["exponent"] = rng.choice([1000, 1_000_000, 30_000_000, 100_000_000])
+        h["exponent"] = rng.choice([1000, 1_000_000, 30_000_000, 60_000_000])   # 60 M digits ~ 115 MiB: clear of the bound, small enough for 16 children at once
         h["sign"] = rng.choice(["+", "+", "-"])
         h["datatype"] = rng.choice(["decimal", "decimal", "double", "integer", "float"])
     elif t == "long_varint":
@@ -377,6 +377,9 @@ def child_main(inputs, start, wfd):
         resource.setrlimit(resource.RLIMIT_AS, (soft, soft))
     except (ValueError, OSError):
         pass
+    if not vm("VmRSS") or not vm("VmHWM"):
+        os.write(wfd, b"X no-VmRSS/VmHWM-in-/proc/self/status\n")
+        os._exit(4)
     for i in range(start, len(inputs)):
         rec = inputs[i]
         data = build_input(rec)
@@ -449,6 +452,8 @@ def run_batch(inputs, sim, breaker=True):
             while b"\n" in buf:
                 line, buf = buf.split(b"\n", 1)
                 parts = line.decode().split(" ")
+                if parts[0] == "X":
+                    raise HarnessError(f"memory cannot be measured on this system: {parts[1:]}")
                 if parts[0] == "S":
                     current = int(parts[1])
                     cur_len = int(parts[2])
